@@ -7,7 +7,7 @@ import numpy as np
 from props import _c06_lib as L
 
 ID = "C06"
-LEAN_MODULES = ["NiftyVerif.Props.C06"]
+LEAN_MODULES = ["NiftyVerif.Props.C06", "NiftyVerif.Core.Proto"]  # the driver needs Core.Proto built
 DRIVER = "Driver/C06.lean"
 OBLIGATIONS = ["NiftyVerif.C06." + t for t in (
     "weight_spec", "integrate_eq_sum_weight", "mean_eq_integrate_div_volume", "var_eq_mean_sq_dev",
